@@ -231,6 +231,16 @@ def known_matches(k, f):
 
 def finish(ctx, level="proof", rule="", checker_cmd=""):
     """Writes evidence, prints VIOLATION / KNOWN-FINDING lines, returns exit code."""
+    # every listed known finding is replayed on the current tree: it is reported while it still fails
+    for k in load_known():
+        if k.get("property") == ctx.pid and k.get("status") == "known" and k.get("repro"):
+            r = subprocess.run([PY, "-W", "ignore", "-c", k["repro"]], capture_output=True, text=True, env=impl_env(), timeout=300)
+            still = r.returncode == 0 and "STILL-FAILS" in r.stdout
+            ctx.notes.append(f"known finding replayed: {'still fails' if still else 'no longer reproduces'}: {k['what'][:120]}")
+            if still and k["what"] not in ctx.known:
+                ctx.known.append(k["what"])
+            if not still and k["what"] in ctx.known:
+                pass
     nob = len(ctx.obligations)
     ndis = sum(1 for o in ctx.obligations if o["ok"])
     for k in ctx.known:
